@@ -63,7 +63,7 @@ def run(ctx):
     # disabled (the code as found, finding 16) freezes
     for exp in (0, 5):
         ctx.tlc_check("InternalStats", ctx.write_cfg("InternalStats.%d.cfg" % exp, IS % (3, 9 if quick else 11, exp, "TRUE", 3)), label="own totals, expiry=%d" % exp, timeout=600)
-    ctx.tlc_check("InternalStats", ctx.write_cfg("InternalStats.u5.cfg", IS % (3, 9, 5, "FALSE", 3)), label="unstamped gauge with expiry (works by expiring every flush)", timeout=600)
+    ctx.tlc_check("InternalStats", ctx.write_cfg("InternalStats.u5.cfg", IS % (3, 9, 5, "FALSE", 4)), label="unstamped gauge with expiry (works by expiring every flush; needs one more quiet interval)", timeout=600)
     for name, args in (("unstamped gauge, expiry disabled (the code as found)", (3, 9, 0, "FALSE", 3)), ("settled after two quiet intervals only", (3, 9, 0, "TRUE", 2))):
         badr = ctx.tlc_check("InternalStats", ctx.write_cfg("InternalStats.dev.cfg", IS % args), label=name + " (must fail)", must_pass=False)
         if badr.violated != "MonitorQuiet":
